@@ -105,7 +105,7 @@ def dict_vs_dataframe(R):
 def real_model_plots(R):
     """LogisticRegression / Pipeline / ColumnTransformer diagrams produced by the real estimator_html_repr (called once, by the
     implementation; the wrapper only records what it returned)"""
-    results, bad = G.correspond(R, "C14real", [list(s) for s in REAL], REAL_MODE)
+    results, bad = G.correspond(R, "C14real", [list(s) for s in REAL], REAL_MODE, shards=len(REAL), clip=400)
     if results is None:
         return
     for sq, r in zip(REAL, results):
